@@ -11,13 +11,16 @@
               a <= b < L, every site k < a is guaranteed left-isometric and
               every site b < k < L right-isometric. *)
 From Coq Require Import List Bool Arith ZArith Ring.
-From QV Require Import Base.Sums C08.Model C08.Proofs C08.Region.
+From QV Require Import Base.Sums C08.Model C08.Proofs C08.Region C08.Historic.
 Import ListNotations.
 
-(* The record stays sound over ALL histories of the operation alphabet minus
-   the refuted cases (`good`, decided by `good_b`), from any sound start, for
-   any well-formed answers of calc_current_orthog_center - and this after
-   every prefix of the history, not only at its end. *)
+(* The record stays sound over ALL histories of the WHOLE operation alphabet -
+   swaps with any absorb, unitary and non-unitary one-site gates, compress_site
+   with and without canonize, sample / measure on copies, measure(remove=True)
+   at any site included - from any sound start, for any well-formed answers of
+   calc_current_orthog_center, and this after every prefix of the history, not
+   only at its end.  `all_good` only asks that each operation names sites that
+   exist (see `good` in C08/Proofs.v, decided by `good_b`). *)
 Theorem C08_record_sound : forall ops st, Inv st -> all_good ops st ->
   forall n st', run (firstn n ops) st = Some st' ->
     FlagsOK (sites st')
@@ -70,44 +73,48 @@ Theorem C08_checker_decides_domain : forall ops st, all_good_b ops st = true -> 
 Proof. exact all_good_b_sound. Qed.
 Print Assumptions C08_checker_decides_domain.
 
-(* ---- refuted: the faithful model leaves a stale record (DESIGN section 5 F9, F17
-   and three more found while building); each witness is replayed on the
-   implementation by harness/c08.py:findings_stream *)
+(* the domain of the theorem, written out: nothing but "the sites exist" *)
+Theorem C08_domain_is_whole_alphabet : forall st o,
+  good st o <->
+  let L := length (sites st) in
+  match o with
+  | OCanon _ w1 w2 | OGateSubMPO w1 w2 _ => w1 < L /\ w2 < L
+  | OSwap i j _ | OGateAutoSwap i j _ => i < L /\ j < L /\ i <> j
+  | OSwapTo i f _ => i < L /\ f < L
+  | OCompressSite i _ | OMeasure i _ => i < L
+  | OSingVals _ | OGate1 _ _ | ODroppedCopy _ _ _ => True
+  | OLocalExpMany ws _ => Forall (fun w => fst w < L /\ snd w < L) ws
+  end.
+Proof. intros st o. destruct o; simpl; tauto. Qed.
+Print Assumptions C08_domain_is_whole_alphabet.
 
-(* F9: swap_sites_with_compress with the default absorb (= 'both') on adjacent sites *)
-Theorem C08_swap_default_record_refuted :
-  exists st st', Inv st /\ step (OSwap 2 3 ADefault) (0, 0) st = Some st' /\ ~ Inv st'.
-Proof. exact swap_default_refuted. Qed.
-Print Assumptions C08_swap_default_record_refuted.
+(* ---- HISTORIC (pre-fix variants, C08/Historic.v; none of this models the
+   current code).  Before the fix commits 4980426d, f9934bdc, eb8c2f1e,
+   e1e3f983, 47017e6a the programs below left a false record from a sound
+   state (DESIGN section 5 F9, F17 and three more found while building C08);
+   the witnesses were replayed on the implementation at the time. *)
+Theorem C08_historic_swap_prefix_broke_record :
+  BreaksRecord (swap_adj_prefix 2 ADefault (0, 0)) /\ BreaksRecord (swap_adj_prefix 2 ABoth (0, 0)).
+Proof. exact swap_prefix_breaks. Qed.
+Print Assumptions C08_historic_swap_prefix_broke_record.
 
-(* ... and absorb='both' given explicitly, adjacent, distant, or through swap_site_to *)
-Theorem C08_swap_both_record_refuted :
-  Refuted (OSwap 2 3 ABoth) /\ Refuted (OSwap 1 4 ABoth) /\ Refuted (OSwapTo 1 4 ABoth).
-Proof. exact swap_both_refuted. Qed.
-Print Assumptions C08_swap_both_record_refuted.
+Theorem C08_historic_nonunitary_1site_prefix_broke_record :
+  BreaksRecord (gate_one_site_prefix 1 false) /\ BreaksRecord (gate_one_site_prefix 5 false).
+Proof. exact gate_one_site_prefix_breaks. Qed.
+Print Assumptions C08_historic_nonunitary_1site_prefix_broke_record.
 
-(* F17: one-site non-unitary gate contracted into the site, record untouched *)
-Theorem C08_nonunitary_1site_record_refuted : Refuted (OGate1 1 false) /\ Refuted (OGate1 5 false).
-Proof. exact nonunitary_refuted. Qed.
-Print Assumptions C08_nonunitary_1site_record_refuted.
+Theorem C08_historic_compress_site_prefix_broke_record :
+  BreaksRecord (compress_site_prefix 1 false (0, 0)) /\ BreaksRecord (compress_site_prefix 5 false (0, 0)).
+Proof. exact compress_site_prefix_breaks. Qed.
+Print Assumptions C08_historic_compress_site_prefix_broke_record.
 
-(* compress_site(i, canonize=False, info=info) accepts the record and ignores it *)
-Theorem C08_compress_site_nocanonize_record_refuted :
-  Refuted (OCompressSite 1 false) /\ Refuted (OCompressSite 5 false).
-Proof. exact compress_site_refuted. Qed.
-Print Assumptions C08_compress_site_nocanonize_record_refuted.
+Theorem C08_historic_dropped_copy_prefix_broke_record : BreaksRecord (dropped_copy_prefix 0 0 (0, 0)).
+Proof. exact dropped_copy_prefix_breaks. Qed.
+Print Assumptions C08_historic_dropped_copy_prefix_broke_record.
 
-(* sample_configuration / sample / measure(get='outcome', inplace=False): the
-   record is updated for a copy that is dropped *)
-Theorem C08_dropped_copy_record_refuted :
-  Refuted (ODroppedCopy false 0 0) /\ Refuted (ODroppedCopy true 5 5).
-Proof. exact dropped_copy_refuted. Qed.
-Print Assumptions C08_dropped_copy_record_refuted.
-
-(* measure(L-1, remove=True): the record keeps pointing at the removed last site *)
-Theorem C08_measure_remove_last_record_refuted : Refuted (OMeasure 5 true).
-Proof. exact measure_last_refuted. Qed.
-Print Assumptions C08_measure_remove_last_record_refuted.
+Theorem C08_historic_measure_last_prefix_broke_record : BreaksRecord (measure_prefix 5 true (0, 0)).
+Proof. exact measure_prefix_breaks. Qed.
+Print Assumptions C08_historic_measure_last_prefix_broke_record.
 
 (* ---- why a sound record makes the canonical-form consumers right (partial:
    the two environment identities; the consumers' values themselves are decided
@@ -158,9 +165,12 @@ Example C08_env_demo :
   /\ env Z 0%Z 1%Z Z.add Z.mul (fun z => z) A D d 1 (fun _ => 0) 1 1 = 1%Z.
 Proof. vm_compute. repeat split. Qed.
 
-(* non-vacuity: a 9-operation history from an uncanonicalised 5-site state and an
-   empty info dict lies in the theorem's domain, runs to the end (4 sites left
-   after a measured site is removed) and ends with record (1, 1), sound *)
+(* non-vacuity: a 12-operation history through every formerly refuted operation
+   (adjacent swap with default absorb, distant swap and swap_site_to with
+   absorb='both', non-unitary one-site gate, compress_site without canonize, a
+   sampled copy, removal of the measured LAST site) from an uncanonicalised
+   5-site state and an empty info dict lies in the theorem's domain, runs to
+   the end (4 sites left) and ends with record (1, 1), sound *)
 Example C08_demo :
   all_good_b demo_ops demo_start = true
   /\ inv_b demo_start = true
